@@ -249,6 +249,9 @@ func (e *StringExpr) Check(ctx *CheckCtx) error {
 }
 
 func (e *NotExpr) Check(ctx *CheckCtx) error {
+	if err := e.Right.Check(ctx); err != nil {
+		return err
+	}
 	if e.Right.ReturnType() != TBOOL {
 		return NewSyntaxError(e.Right.GetPos(), "! operator right expression has wrong type")
 	}
